@@ -337,6 +337,11 @@ class Struct:
     default: Optional[Default] = None
     debug: bool = False
     rawname: str = "raw_value"  # rebound from the parsed expansion
+    partial: Optional[str] = None  # name of the type-state builder struct, rebound from builder()'s return type
+
+    @property
+    def pname(self):
+        return self.partial or f"Partial{self.name}"
     derives: Tuple[str, ...] = ()
 
     @property
